@@ -161,6 +161,26 @@ fn check_hostile(text: &str, l: &mut Local) -> Option<(String, String)> {
                     return Some(("c06.accepts-bad-rank-width".into(), format!("{text:?} has rank widths {w:?} but is accepted (as '{out}')")));
                 }
             }
+            // whatever Game the reader made of the text (short texts with defaulted fields included): writing it and
+            // reading that back must give the same Game again - counters and key included
+            let again = guarded(|| {
+                let g = Game::from_fen(text).ok()?;
+                let g2 = Game::from_fen(&g.to_fen()).ok()?;
+                Some((
+                    format!("{} plies={} clock={} key={:x}", g.to_fen(), g.plies, g.halfmove_clock, g.zobrist.0),
+                    format!("{} plies={} clock={} key={:x}", g2.to_fen(), g2.plies, g2.halfmove_clock, g2.zobrist.0),
+                ))
+            });
+            match again {
+                Ok(Some((a, b))) => {
+                    l.feat("accepted_texts_written_and_read_back");
+                    if a != b {
+                        return Some(("c06.roundtrip.accepted-text".into(), format!("the Game read from {text:?} is [{a}]; written and read back it is [{b}]")));
+                    }
+                }
+                Ok(None) => return Some(("c06.roundtrip.rejected".into(), format!("the Game read from {text:?} writes itself as '{out}', which the reader refuses"))),
+                Err((m, loc)) => return Some((format!("c06.reader-panic@{}", short_loc(&loc)), format!("writing and re-reading the Game read from {text:?} panicked: {m}"))),
+            }
             None
         }
         Ok(Err(_)) => {
